@@ -127,6 +127,18 @@ def ids_of(tab):
             for ns, (i, ents) in tab.items() if ns != "sys"}
 
 
+def names_of(tab):
+    return {ns: {e: set(x[1]) for e, x in ents.items()} for ns, (_, ents) in tab.items() if ns != "sys"}
+
+
+def names_of_version(v):
+    res = {}
+    for ns, ents in v:
+        for e, fs, _ in ents:
+            res.setdefault(ns, {})[e] = set(f[0] for f in fs)
+    return res
+
+
 def expected_ids(v):
     pos = positional(v)
     if pos is None: return None
@@ -224,6 +236,7 @@ class C15(Cfg):
         acc_text = [None] * n      # encoded text of the last accepted version
         acc_tab = [None] * n       # table right after the last accepted version
         hash_order = [False] * n
+        dirty = [False] * n        # the model in memory was modified by a refused version
         rows = {}                  # row no -> (entity ref, {field: value})
         defaults = {}              # (entity ref, field) -> set of defaults seen in accepted versions (+ "null")
         fields_of = {}             # entity ref -> set of fields of the accepted version (instance 0)
@@ -252,8 +265,17 @@ class C15(Cfg):
                 exp = expected_ids(v) if v is not None else None
                 accepted = head == "ok"
                 if head == "done":      # public API: the outcome is not reported; accepted iff the model now is what the text says
-                    accepted = tab is not None and exp is not None and ids_of(tab) == exp and text != acc_text[i]
-                    if tab is not None and text == acc_text[i]: accepted = True
+                    accepted = tab is not None and v is not None and exp is not None and names_of(tab) == names_of_version(v)
+                    if accepted and prev[i] is not None:
+                        # an accepted version keeps every pre-existing item at its position in the text
+                        got0 = ids_of(tab)
+                        for ns, (nid, ents) in prev[i].items():
+                            if ns == "sys" or not accepted: continue
+                            if ns not in exp or exp[ns][0] != got0[ns][0]: accepted = False; break
+                            for e, x in ents.items():
+                                ee = exp[ns][1].get(e)
+                                if ee is None or ee[0] != got0[ns][1][e][0] or any(ee[1].get(f) != got0[ns][1][e][1].get(f) for f in x[1]):
+                                    accepted = False; break
                 before = prev[i]
                 # -- ids never change / never collide (accepted or not)
                 if tab is not None:
@@ -307,8 +329,10 @@ class C15(Cfg):
                             flag("ids-not-positional", "accepted version does not give positional ids (%s)" % op[:60])
                     # -- the same text again (restart) changes nothing
                     if text == acc_text[i] and acc_tab[i] is not None and k != "updpub" and tab != acc_tab[i]:
-                        flag("same-text-changed-model", "re-applying the accepted text changed the model (%s)" % k)
+                        if dirty[i]: flag("refused-version-changed-model", "the accepted text has to undo what a refused version left behind")
+                        else: flag("same-text-changed-model", "re-applying the accepted text changed the model (%s)" % k)
                     acc_text[i], acc_tab[i], prev[i] = text, tab, tab
+                    if k != "ver": dirty[i] = False       # start / run-time update reload the stored model
                     if i == 0: dirty_live = False
                     if i == 0 and v is not None:
                         for ns, ents in v:
@@ -321,14 +345,18 @@ class C15(Cfg):
                     if text == acc_text[i] and acc_text[i] is not None:
                         if hash_order[i]:
                             flag("hash-order-ids", "the accepted text is refused at the next start/update: %s" % head)
+                        elif dirty[i]:
+                            flag("refused-version-changed-model", "the accepted text is refused after a refused version modified the model: %s" % head)
                         else:
                             flag("same-text-refused", "the accepted text is refused: %s" % head)
                     if k == "start":
                         prev[i] = acc_tab[i]      # instance down; the stored model is what the next start sees
+                        dirty[i] = False
                         if i == 0: dirty_live = False
                     elif tab is not None and before is not None and tab != before:
                         flag("refused-version-changed-model", "%s left a modified model behind (%s)" % (head, k))
                         prev[i] = tab
+                        dirty[i] = True
                         if i == 0: dirty_live = True
                     # a later run-time update reloads the stored model
                     if k in ("upd", "updpub"): prev[i] = acc_tab[i] if acc_tab[i] is not None else prev[i]
